@@ -12,6 +12,7 @@ import specgen
 import specgen_mixed
 import compilepool
 import displaystrip
+import rankrename
 import runlib
 import execlib
 import popgen
@@ -86,12 +87,20 @@ def run(ctx):
     # index arithmetic (C04's population) and cascades under a display: executed in pairs (with / without the spacetime)
     pops += list(popgen.with_spacetime(rng, list(popgen.affine(rng, 130 if q else 1100))))
     pops += cascade_items(rng, 45 if q else 400)
+    nren = 0
     for it in pops:
         it["plain_yaml"] = plain_yaml(it)
+        if "es" in it and not it["kind"].startswith("affine") and rng.random() < 0.4:
+            # rank names other than J, K, M, N (names of common tensors, names ending in I, two-letter names): tools/rankrename.py
+            rm = rankrename.make_map(rng)
+            it["yaml"], it["plain_yaml"] = rankrename.yaml_text(it["yaml"], rm), rankrename.yaml_text(it["plain_yaml"], rm)
+            it["mapping"] = rankrename.mapping(it["mapping"], rm)
+            it["spacetime"] = rankrename.spacetime(it["spacetime"], rm)
+            nren += 1
     res = compilepool.compile_many([y for it in pops for y in (it["yaml"], it["plain_yaml"])])
     cases = []
     stats = {"by_kind": {}, "rejected": 0, "crashed": {}, "slip": 0, "coord_style": 0, "well_ordered": 0, "static_display_only": 0,
-             "paired_executions": 0, "plain_fails_too": 0, "plain_wrong_too": 0, "plain_rejected": 0}
+             "paired_executions": 0, "plain_fails_too": 0, "plain_wrong_too": 0, "plain_rejected": 0, "ranks_renamed": nren}
     bad = 0
     static_bad = []
     for k, it in enumerate(pops):
@@ -228,7 +237,7 @@ def run(ctx):
     ctx.coverage.update({
         "programs": distinct_p, "executions": len(cases), "disagreements_checked": bad, "evaluations": len(cases), "distinct_nontrivial": distinct_p,
         "population": stats, "activities_observed": nact,
-        "rule": "C01-C03 populations + C04's index-arithmetic population (shape partitioning with follow) + mixed cascades, each with a spacetime stamping every loop rank: random space/time split, "
+        "rule": "C01-C03 populations (40% with their ranks renamed away from J,K,M,N) + C04's index-arithmetic population (shape partitioning with follow) + mixed cascades, each with a spacetime stamping every loop rank: random space/time split, "
                 "random time order, styles default/.pos/.coord per rank, slip 30%; static: display-stripped text == text compiled without the spacetime (every specification); "
                 "one execution each against the oracle; index-arithmetic and cascade programs executed in pairs with/without the spacetime on identical inputs",
         "samples": [{"yaml": cases[0].spec.yaml, "result": cases[0].raw}],
